@@ -333,9 +333,19 @@ func (w *WAL) mutateStateLocked(tx stateTxn) error {
 // data within it will be performed to free old files that may have been
 // truncated concurrently.
 func (w *WAL) acquireState() (*state, func()) {
-	s := w.loadState()
-	verifSched("state-loaded")
-	return s, s.acquire()
+	for {
+		s := w.loadState()
+		verifSched("state-loaded")
+		release := s.acquire()
+		if w.loadState() == s {
+			return s, release
+		}
+		// The state was replaced between loading it and taking our reference.
+		// The writer may already have dropped the last reference and run the
+		// finalizer (closing the files of removed segments, or all of them on
+		// Close), so this state must not be used. Let go and retry.
+		release()
+	}
 }
 
 // newSegment creates a types.SegmentInfo with the passed ID and baseIndex, filling in
@@ -360,6 +370,9 @@ func (w *WAL) FirstIndex() (uint64, error) {
 	verifSched("read:closed-checked")
 	s, release := w.acquireState()
 	defer release()
+	if s.isClosed() {
+		return 0, ErrClosed
+	}
 	return s.firstIndex(), nil
 }
 
@@ -371,6 +384,9 @@ func (w *WAL) LastIndex() (uint64, error) {
 	verifSched("read:closed-checked")
 	s, release := w.acquireState()
 	defer release()
+	if s.isClosed() {
+		return 0, ErrClosed
+	}
 	return s.lastIndex(), nil
 }
 
@@ -382,6 +398,9 @@ func (w *WAL) GetLog(index uint64, log *raft.Log) error {
 	verifSched("read:closed-checked")
 	s, release := w.acquireState()
 	defer release()
+	if s.isClosed() {
+		return ErrClosed
+	}
 	w.metrics.IncrementCounter("log_entries_read", 1)
 
 	raw, err := s.getLog(index)
@@ -419,6 +438,10 @@ func (w *WAL) StoreLogs(logs []*raft.Log) error {
 
 	s, release := w.acquireState()
 	defer release()
+	if s.isClosed() {
+		// Close won the race for the write lock.
+		return ErrClosed
+	}
 
 	// Verify monotonicity since we assume it
 	lastIdx := s.lastIndex()
@@ -527,6 +550,10 @@ func (w *WAL) DeleteRange(min uint64, max uint64) error {
 
 	s, release := w.acquireState()
 	defer release()
+	if s.isClosed() {
+		// Close won the race for the write lock.
+		return ErrClosed
+	}
 
 	// Work out what type of truncation this is.
 	first, last := s.firstIndex(), s.lastIndex()
@@ -977,7 +1004,11 @@ func (w *WAL) Close() error {
 	defer w.writeMu.Unlock()
 
 	// It doesn't matter if there is a rotation scheduled because runRotate will
-	// exist when it sees we are closed anyway.
+	// exist when it sees we are closed anyway. But a writer may already be
+	// waiting for that rotation to finish: wake it, it will find the WAL closed.
+	if w.awaitRotate != nil {
+		close(w.awaitRotate)
+	}
 	w.awaitRotate = nil
 	// Awake and terminate the runRotate
 	close(w.triggerRotate)
